@@ -98,6 +98,18 @@ theorem ViaSet.set_then {e : Nat} {N : String} (nv : Obj) {f : Obj → M β} (hf
   next a st' heq => rw [hf a st', heq]
   next err st' heq => rw [heq]
 
+/-- `ViaSet` at one state; a read-only prefix (dereferencing the operands) does not matter -/
+theorem via_bind_ro {e : Nat} {N : String} {x : M α} {f : α → M β} {st : St} (hx : ReadOnly x)
+    (hf : ∀ a, SameValues st (run (f a) st).2 ∨
+      ∃ st1 nv, SameValues st st1 ∧ (run (f a) st).2 = (run (envSet e N nv) st1).2) :
+    SameValues st (run (x >>= f) st).2 ∨
+      ∃ st1 nv, SameValues st st1 ∧ (run (x >>= f) st).2 = (run (envSet e N nv) st1).2 := by
+  rw [run_bind]
+  have h := hx st
+  split
+  next a st' heq => rw [heq] at h; simp only at h; subst h; exact hf a
+  next err st' heq => rw [heq] at h; simp only at h; subst h; exact .inl (SameValues.refl _)
+
 theorem svOnly_envGet (e : Nat) (N : String) : SvOnly (envGet e N) := envGet_sameValues e N
 
 theorem svOnly_noteHazard (c : Bool) (k n : String) : SvOnly (noteHazard c k n) := by
@@ -183,6 +195,9 @@ theorem evalIndexAssignment_writes_via_set (N : String) (index value : Obj) (st 
     ∃ st1 nv, SameValues st st1 ∧
       (run (evalIndexAssignment (.ident N) index value) st).2 = (run (envSet st.cur N nv) st1).2 := by
   unfold evalIndexAssignment
+  refine via_bind_ro (readOnly_valueOf _) fun index => ?_
+  refine via_bind_ro (readOnly_valueOf _) fun value => ?_
+  dsimp only
   rw [run_curEnv_bind]
   refine (?_ : ViaSet st.cur N _) st
   refine ViaSet.bind_sv (svOnly_envGet _ _) fun r => ?_
@@ -190,7 +205,7 @@ theorem evalIndexAssignment_writes_via_set (N : String) (index value : Obj) (st 
   · exact ViaSet.pure _ _ _
   · refine ViaSet.bind_sv (SvOnly.of_readOnly (readOnly_valueOf _)) fun v => ?_
     split
-    · dsimp only
+    · try dsimp only
       repeat' split
       all_goals first
         | exact ViaSet.pure _ _ _
